@@ -46,6 +46,30 @@ CHECKS = {
         "rule": "history: constructor x key type x 1..40 operations; non-trivial = at least one removal or overwrite at size >= 2. distinct = distinct decoded cases.",
         "assumptions": [],
     },
+    "C15": {
+        "parts": [{"pkg": "seq", "test": "TestC15", "subs": ["all-subset-pairs", "random-pairs"]}],
+        "technique": "exhaustive small-scope enumeration (all pairs of subsets of a 6/7-value universe x 4 operations, int and string, plus the aliased pair) + rapid random pairs with custom collators; oracle = set algebra on equivalence classes computed independently",
+        "level_text": "And/Or/Sans/Xor are run on every ordered pair of subsets of a 6-value universe (7 in the thorough tier) for int and string elements, including the same set passed twice, and on random pairs over larger universes, []int, nested sets, any, under default, reversed and coarse collators. The result must be a new set with exactly the expected members, strictly ascending; operands must be unchanged; later changes of the result or of an operand must not reach the other side.",
+        "level_note": "Membership is compared on equivalence classes of the operands' (shared) ordering; both operands carry the same ordering, as a mathematical set algebra presupposes.",
+        "rule": "all-subset-pairs: exhaustive (2 element types x 4 operations x 64 x 65 operand pairs). random-pairs: operands of 0..11 values over domains of 10 or 64 values; relations forced: aliased, equal content, nested, free. non-trivial = both operands non-empty, overlapping, neither equal nor aliased; the degenerate classes are counted in the classes histogram. distinct = distinct decoded cases.",
+        "assumptions": [],
+    },
+    "C16": {
+        "parts": [{"pkg": "seq", "test": "TestC16", "subs": ["all-small-operands", "random-operands"]}],
+        "technique": "exhaustive small-scope enumeration of operand pairs and key sequences + rapid random operands; oracle = the documented laws computed on plain slices, plus metamorphic mutate-after-call purity checks",
+        "level_text": "Concatenate on all pairs of lists over a 3-value alphabet up to length 4, Merge on all pairs of catalogs whose key lists are ordered subsets of a 4-key universe (values 100*operand+key so the winner is observable), Extract for every key sequence up to length 3 over present, absent and repeated keys against catalogs that store the zero value under a present key; aliased operands; random larger cases. Results are compared with the law, must be new, operands unchanged, and mutations of result/operands (including through yielded association objects) must not cross.",
+        "level_note": "Extract's result for a requested key that the catalog does not contain must be nothing (the statement says so); repeated requested keys appear once, at their first position.",
+        "rule": "exhaustive: 121 x (121+1) list pairs, 65 x (65+1) catalog pairs, 16 catalogs x 2 x 85 key sequences. non-trivial: operands non-empty; Merge: >= 1 shared and >= 1 new key; Extract: >= 1 absent or repeated key. distinct = distinct decoded cases.",
+        "assumptions": [],
+    },
+    "C17": {
+        "parts": [{"pkg": "seq", "test": "TestC17", "subs": ["all-move-sequences", "random-walks", "snapshot-small", "snapshot-random"]}],
+        "technique": "exhaustive enumeration of iterator move sequences against an abstract cursor + rapid random walks + enumerated/random interleavings of collection mutations with iterator moves (snapshot metamorphic check)",
+        "level_text": "Cursor part: for sizes 0..4 every sequence of up to 4 (quick) / 6 (thorough) moves over {GetNext, GetPrevious, ToStart, ToEnd, ToSlot(k), k in -size-2..size+2} is run on an agent-made and a List-made iterator, and slot, HasNext, HasPrevious, GetSize, IsEmpty and the returned values are compared with an abstract cursor after every move; random walks up to 200 moves on sizes up to 50. Snapshot part: for each of the seven collection kinds an iterator is obtained (and partly advanced), the collection is mutated by every mutating operation (sequences of 1..3, random up to 5), a second iterator is moved, and the first iterator must still enumerate, forwards and backwards, exactly what the collection held when it was obtained.",
+        "level_note": "ToSlot(k) for k < -size is documented only as 'clamps': slot 0 or the implementation's slot 1 are both accepted. Catalog iterators yield the catalog's own association objects (compared by identity); a Map makes fresh association objects per view and orders them arbitrarily, so its snapshot is compared as a set of (key,value) pairs, and each iterator with itself exactly.",
+        "rule": "all-move-sequences / snapshot-small: exhaustive. non-trivial (cursor) = size > 0 and the walk visited both ends and used ToSlot with a negative or clamped argument; (snapshot) = a mutation happened between two yields of an iterator that still had values to yield. distinct = distinct decoded cases.",
+        "assumptions": [],
+    },
     "C13": {
         "parts": [{"pkg": "seq", "test": "TestC13", "subs": ["history", "words", "ctor-sizes"], "thorough_shards": 8}],
         "technique": "model-based stateful property testing (rapid) against a top-first slice model + exhaustive enumeration of push/pop words and constructor sizes",
